@@ -131,6 +131,7 @@ impl IdOf for Uz {
 }
 
 thread_local! { static GEN_CLONES: std::cell::Cell<u64> = const { std::cell::Cell::new(0) }; }
+thread_local! { static GEN_ORDER: std::cell::RefCell<Vec<u32>> = const { std::cell::RefCell::new(vec![]) }; }
 /// No drop glue; `Clone` is hand-written, counts its calls globally and - through interior mutability - in the value it is
 /// called on (a clone taken from a bitwise duplicate instead of the element itself leaves that counter untouched)
 #[derive(PartialEq)]
@@ -138,6 +139,12 @@ pub struct Gen(u32, std::cell::Cell<u32>);
 impl Clone for Gen {
     fn clone(&self) -> Gen {
         GEN_CLONES.with(|c| c.set(c.get() + 1));
+        GEN_ORDER.with(|o| {
+            let mut o = o.borrow_mut();
+            if o.len() < 8192 {
+                o.push(self.0)
+            }
+        });
         self.1.set(self.1.get() + 1);
         Gen(self.0, std::cell::Cell::new(0))
     }
@@ -167,6 +174,9 @@ impl IdOf for Gen {
     fn cloned_from(&self) -> Option<u32> {
         Some(self.1.get())
     }
+    fn take_clone_order() -> Option<Vec<u32>> {
+        Some(GEN_ORDER.with(|o| std::mem::take(&mut *o.borrow_mut())))
+    }
 }
 
 trait IdOf {
@@ -177,6 +187,10 @@ trait IdOf {
     }
     /// how often `clone` was called on this very value, for kinds that record it in the value
     fn cloned_from(&self) -> Option<u32> {
+        None
+    }
+    /// the values `T::clone` was called on since the last call of this function, in call order (and forget them)
+    fn take_clone_order() -> Option<Vec<u32>> {
         None
     }
 }
@@ -359,8 +373,20 @@ impl<T: Elem + IdOf + Clone + Debug, N: ArrayLength> Run<T, N> {
     fn use_clone(&mut self, u: Use) -> Result<(), String> {
         let calls_before = T::clone_calls();
         let marks_before: Vec<Option<u32>> = self.it.as_slice().iter().map(|e| e.cloned_from()).collect();
+        let _ = T::take_clone_order();
         let c = self.it.clone();
         let want = self.model_vals();
+        // `[T; N]::into_iter().clone()` clones the remaining elements front to back; a `Clone` with side effects (serial numbers,
+        // a budget) makes the order part of what the clone holds
+        if let Some(order) = T::take_clone_order() {
+            if want.len() <= 4096 && order != want {
+                return Err(format!(
+                    "clone: T::clone was called on the remaining elements in the order {:?}, the native array's iterator clones front to back {:?}",
+                    &order[..order.len().min(8)],
+                    &want[..want.len().min(8)]
+                ));
+            }
+        }
         for (i, (e, b)) in self.it.as_slice().iter().zip(&marks_before).enumerate() {
             if let (Some(now), Some(before)) = (e.cloned_from(), b) {
                 if now != before + 1 {
